@@ -28,3 +28,7 @@ def run(ctx, rep):
     more4.rule_copy_source(mod, rep)
     from ..rules import more4
     more4.rule_extent_pairs(mod, rep)
+    from ..rules import more5
+    more5.rule_zero_skip(mod, rep)
+    more5.rule_trsv_dense(mod, rep)
+    more5.rule_row_cursor(mod, rep)
